@@ -323,6 +323,9 @@ struct Ledger {
     /// The datagram server's configured response size limit over time:
     /// (when reconfigure() was called, the new value).
     dgram_limits: Vec<(u64, Option<u16>)>,
+    /// The links of the stream connections (client, conn): looked at after
+    /// the run for what happened to the server's side of them.
+    links: Vec<(usize, usize, net::LinkCtl)>,
 }
 
 type Led = Rc<RefCell<Ledger>>;
@@ -826,10 +829,14 @@ async fn stream_client(exec: Exec, led: Led, listener: SimListener, client: usiz
             latency_ms: sim::draw("tcp.latency", 3),
             window: if slow_reader { 64 + sim::draw("tcp.window", 400) as usize } else { 1 << 20 },
             eintr: false,
+            eintr_w: false,
         };
         // The server's reads are interrupted now and then (EINTR: nothing
         // consumed, to be retried - not a reason to give the connection up).
-        let server_pipe = PipeCfg { eintr: sim::chance("tcp.server_reads_interrupted", 1, 4), ..pipe };
+        // Its writes too, behind a short write: part of a frame is out then.
+        // A server may give such a connection up - what it must not do is go
+        // on with the frame from its first octet.
+        let server_pipe = PipeCfg { eintr: sim::chance("tcp.server_reads_interrupted", 1, 4), eintr_w: sim::chance("tcp.server_writes_interrupted", 1, 6), ..pipe };
         let planner: Arc<dyn Fn(usize) -> ConnectPlan + Send + Sync> = Arc::new(move |_| ConnectPlan {
             client_cfg: pipe,
             server_cfg: server_pipe,
@@ -837,7 +844,10 @@ async fn stream_client(exec: Exec, led: Led, listener: SimListener, client: usiz
         });
         let connector = listener.connector(addr(10 + client as u8, 7000 + conn as u16), planner);
         let (stream, ctl) = match connector.connect_sim_ctl().await {
-            Ok(x) => x,
+            Ok(x) => {
+                led.borrow_mut().links.push((client, conn, x.1.clone()));
+                x
+            }
             Err(_) => return,
         };
         let (rd, mut wr) = tokio::io::split(stream);
@@ -1050,6 +1060,7 @@ async fn stream_client(exec: Exec, led: Led, listener: SimListener, client: usiz
                 if aborted {
                     s.excused.get_or_insert("client-aborted-connection");
                 }
+
                 if slow_reader && stall_read_ms >= knobs.write_timeout_ms {
                     s.excused.get_or_insert("client-stalled-beyond-write-timeout");
                 }
@@ -1379,6 +1390,17 @@ async fn run(_tier: Tier) {
             let mut l = led.borrow_mut();
             for s in l.sent.iter_mut().filter(|s| s.udp && s.id == id && addr(10 + s.client as u8, 5000) == dest) {
                 s.excused.get_or_insert("send-stalled-beyond-write-timeout");
+            }
+        }
+    }
+    // A write of the server that failed (EINTR behind a short write) is a
+    // reason to give that connection up: what it still owed there is excused.
+    {
+        let mut l = led.borrow_mut();
+        let hit: Vec<(usize, usize)> = l.links.iter().filter(|(_, _, c)| c.b_write_interrupted()).map(|(a, b, _)| (*a, *b)).collect();
+        for s in l.sent.iter_mut().filter(|s| !s.udp) {
+            if hit.contains(&(s.client, s.conn)) {
+                s.excused.get_or_insert("server-write-failed-connection-given-up");
             }
         }
     }
